@@ -5,6 +5,7 @@ Works on a small IR (list of dicts), never on Cirq objects:
   {"t":"k", "ks":[K...], "ax":[...]}                          channel (Kraus) on axes
   {"t":"m", "key":str, "ax":[...], "inv":[bool...], "conf":[[positions, matrix], ...]}  measurement
   {"t":"reset", "ax":[a]}                                     reset to |0>
+  {"t":"pm", "key":str, "ax":[...], "obs": matrix}            measurement of a +-1 valued observable (one record bit)
   {"t":"c", "conds":[cond...], "op": <IR op>}                 op applied iff all conditions hold
   {"t":"cb", "conds":[cond...], "ops": [<IR op>...]}          block: conditions evaluated once, then all ops run
 conditions:
@@ -117,6 +118,29 @@ def _step(op, st, shape):
         # a reset keeps a pure state pure only if the qubit is unentangled; track purity numerically
         new_rho = L.apply_kraus_to_rho(ks, [a], shape, rho)
         return [(p, rec, shp, new_rho, _pure_or_none(new_rho))]
+    if t == "pm":
+        # measurement of a +-1 valued observable O on the axes: outcome 0 <-> eigenvalue +1, outcome 1 <-> eigenvalue -1;
+        # projective collapse onto the eigenspace (not onto individual qubit values)
+        ax = list(op["ax"])
+        O = np.asarray(op["obs"], dtype=complex)
+        eye = np.eye(O.shape[0], dtype=complex)
+        out = []
+        for bit, proj in ((0, (eye + O) / 2), (1, (eye - O) / 2)):
+            P = L.embed(proj, ax, shape)
+            r2 = P @ rho @ P
+            pr = float(np.real(np.trace(r2)))
+            if pr <= EPS:
+                continue
+            psi2 = None
+            if psi is not None:
+                psi2 = P @ psi
+                psi2 = psi2 / np.linalg.norm(psi2)
+            rec2 = dict(rec)
+            rec2[op["key"]] = list(rec.get(op["key"], [])) + [(bit,)]
+            shp2 = dict(shp)
+            shp2[op["key"]] = list(shp.get(op["key"], [])) + [(2,)]
+            out.append((p * pr, rec2, shp2, r2 / pr, psi2))
+        return out
     if t == "m":
         ax = list(op["ax"])
         dims = tuple(shape[a] for a in ax)
